@@ -17,7 +17,8 @@ Definition m_value : bytes := [32;118;97;108;117;101].
 Definition m_cannot_change_env : bytes := [99;97;110;110;111;116;32;99;104;97;110;103;101;32;116;104;101;32;101;110;118;105;114;111;110;109;101;110;116;32;111;102;32;103;105;118;101;110;32;111;98;106;101;99;116].
 
 (* the function pairs() hands out is its own Go function (pairsaux), not the global next *)
-Definition BPairsAux : builtin := BWrapped 7.
+(* coroutine.wrap functions are BWrapped (S thread) *)
+Definition BPairsAux : builtin := BWrapped 0.
 
 Definition bi_args : VM (list value) :=
   vdo cf <- cur_frame; vdo top <- reg_top;
@@ -110,7 +111,7 @@ Definition simple_builtin (b : builtin) (args : list value) : VM (list value) :=
       | _ => badarg
       end
   | BWrapped co =>     (* pairsaux: like next, but nothing at the end *)
-      if negb (Nat.eqb co 7) then vunsup 110 else
+      if negb (Nat.eqb co 0) then vunsup 110 else
       match a1 with
       | VTab r => vdo t <- read_vtab r;
           let ks := key_order (t_kv t) in
@@ -238,7 +239,6 @@ Definition simple_builtin (b : builtin) (args : list value) : VM (list value) :=
   | BNewUd =>
       fun s => VRet [VUd (length (vuds s))]
                     (with_vuds s (vuds s ++ [match a1 with VTab m => Some m | _ => None end]))
-  | BCoCreate | BCoResume | BCoYield | BCoStatus | BCoWrap | BCoRunning => vunsup 110
   | _ => vunsup 112
   end.
 
@@ -256,6 +256,118 @@ Definition ToStringMeta (v : value) : VM value :=
     | VFault _ _ => vunsup 111
     | _ => vunsup 209            (* the address of a table/function is not an observable *)
     end.
+
+(* ---------- coroutinelib.go ---------- *)
+Definition new_thread (fn : fnref) (wrapped : bool) : VM nat :=
+  fun s => VRet (length (vthreads s))
+                (with_threads s (vthreads s ++ [mkTh (mkReg [] 0) [mkFrame fn 0 0 1 0 0 MultRet 0] [] None wrapped false false])).
+
+(* func (th *LState) adjustResumedValues(n int), running as th *)
+Definition adjustResumedValues (n : Z) : VM unit :=
+  fun s =>
+    match vstack s with
+    | [] => VRet tt s
+    | cf :: _ =>
+        match fr_fn cf with
+        | FnGo _ => VRet tt s
+        | FnLua c =>
+            if fr_pc cf =? 0 then VRet tt s else
+            (vdo cl <- get_closure c;
+             vdo inst <- code_at (cl_proto cl) (fr_pc cf - 1);
+             match op_of_code (opGetOpCode inst) with
+             | Some OP_CALL =>
+                 let nret := opGetArgC inst - 1 in
+                 if (nret >=? 0) && negb (nret =? n)
+                 then vdo top <- reg_top; reg_settop (top - n + nret)
+                 else vret tt
+             | _ => vret tt
+             end) s
+        end
+    end.
+
+Definition thread_status (s : vstate) (t : nat) : bytes :=
+  let th := get_thread s t in
+  if th_dead th then s_dead
+  else if Nat.eqb t (vcur s) then s_running
+  else match th_parent th with Some _ => s_normal | None => s_suspended end.
+
+(* func threadRun(L) for the coroutine t resumed by the thread me: the main loop runs until the
+   coroutine yields or ends; an error kills the coroutine and is handed to the resumer (as a
+   result of resume, or as an error of the wrap function, positioned for strings) *)
+Definition threadRun (t me : nat) (wrapped : bool) : VM unit :=
+  fun s1 =>
+                    match mainloop None s1 with
+                    | VRet _ s2 => VRet tt s2
+                    | VErr e s2 =>
+                        if negb (Nat.eqb (vcur s2) t) then VUnsup 115 else
+                        let s3 := closeUpvalues_st 0 s2 in
+                        if wrapped then
+                          (* the error leaves through the wrap function *)
+                          let s4 := set_thread s3 t (let x := get_thread s3 t in
+                                       mkTh (th_reg x) (th_stack x) (th_uvcache x) None (th_wrapped x) true true) in
+                          let sp := switch_to me s4 in
+                          match e with
+                          | VNum _ | VStr _ =>
+                              match GetStack (vstack sp) 1 with
+                              | Some f => if is_go (fr_fn f) then VErr e sp
+                                          else (vdo w <- where_info 1 false; vdo m <- as_text e;
+                                                vraise (VStr (winfo_text w ++ [32] ++ m))) sp
+                              | None => VErr e sp
+                              end
+                          | VFault _ _ =>
+                              match GetStack (vstack sp) 1 with
+                              | Some f => if is_go (fr_fn f) then VErr e sp else VUnsup 111
+                              | None => VErr e sp
+                              end
+                          | _ => VErr e sp
+                          end
+                        else
+                          (vdo cfe <- (fun s => VRet (match vstack s with f :: _ => fr_localbase f | [] => 0 end) s);
+                           vdo _ <- reg_settop cfe;             (* L.SetTop(0) *)
+                           vdo _ <- reg_push e;
+                           switchToParentThread 1 true true) s3
+                    | VFuel => VFuel
+                    | VUnsup c => VUnsup c
+                    end.
+
+(* func coResume(L): the registers of L hold the thread and the values to pass *)
+Definition coResume : VM Z :=
+  vdo args <- bi_args;
+  match args with
+  | VCo t :: vals =>
+      vdo s <- vget;
+      let th := get_thread s t in
+      let me := vcur s in
+      if Nat.eqb t me || (match th_parent th with Some _ => true | None => false end)
+      then (if th_wrapped th then fault_ 9 else bi_ret [VBool false; VFault 9 0])
+      else if th_dead th
+      then (if th_wrapped th then fault_ 8 else bi_ret [VBool false; VFault 8 0])
+      else
+        vdo cf <- cur_frame;
+        let nargs := len vals in
+        vdo _ <- reg_settop (fr_localbase cf + 1);          (* L.XMoveTo(th, nargs), L's side *)
+        vdo _ <- upd_thread t (fun x => mkTh (th_reg x) (th_stack x) (th_uvcache x) (Some me) (th_wrapped x) (th_dead x) true);
+        vdo _ <- vmod (switch_to t);
+        (* running as th *)
+        vdo _ <- (if negb (th_started th) then
+                    vdo cf' <- cur_frame;
+                    vdo _ <- reg_settop (fr_localbase cf');   (* th.SetTop(0) *)
+                    vdo _ <- reg_push_list vals;
+                    let cf1 := mkFrame (fr_fn cf') (fr_pc cf') (fr_base cf') (fr_localbase cf') (fr_returnbase cf')
+                                       nargs (fr_nret cf') (fr_tailcall cf') in
+                    vdo _ <- set_cur_frame cf1;
+                    vdo cf2 <- initCallFrame cf1;
+                    set_cur_frame cf2
+                  else
+                    vdo _ <- reg_push_list vals; adjustResumedValues nargs);
+        vdo _ <- threadRun t me (th_wrapped th);
+        vdo s5 <- vget;
+        if negb (Nat.eqb (vcur s5) me) then vunsup 115 else
+        vdo cf5 <- cur_frame;
+        vdo top <- reg_top;
+        vret (top - fr_localbase cf5 - 1)
+  | _ => badarg
+  end.
 
 (* frame.Fn.GFunction(L) *)
 Definition gfunction (b : builtin) : VM Z :=
@@ -357,6 +469,16 @@ Definition gfunction (b : builtin) : VM Z :=
           end
       | _ => badarg
       end
+  | BCoYield => vret (-1)
+  | BCoCreate => match fnref_of a1 with Some f => vdo t <- new_thread f false; bi_ret [VCo t] | None => badarg end
+  | BCoWrap => match fnref_of a1 with Some f => vdo t <- new_thread f true; bi_ret [VBuiltin (BWrapped (S t))] | None => badarg end
+  | BCoStatus => match a1 with VCo t => vdo s <- vget; bi_ret [VStr (thread_status s t)] | _ => badarg end
+  | BCoRunning => vdo s <- vget; bi_ret [if Nat.eqb (vcur s) 0 then VNil else VCo (vcur s)]
+  | BCoResume => coResume
+  | BWrapped (S t) =>        (* wrapaux: L.Insert(thread, 1); return coResume(L) *)
+      vdo cf <- cur_frame;
+      vdo _ <- vmod_reg (fun r => Insert r (VCo t) (fr_localbase cf));
+      coResume
   | _ => vdo rs <- simple_builtin b args; bi_ret rs
   end.
 
